@@ -29,6 +29,15 @@ class GotranPythonCodePrinter(PythonCodePrinter):
         **{"DiracDelta": "numpy.zeros_like"},
     }
     _kc = {k: f"numpy.{v.replace('math.', '')}" for k, v in PythonCodePrinter._kc.items()}
+    # Names the generated module uses itself are renamed like Python keywords
+    reserved_words = PythonCodePrinter.reserved_words | {
+        "async",
+        "await",
+        "numpy",
+        "jax",
+        "len",
+        "shape",
+    }
 
     def _hprint_Pow(self, expr, rational=False, sqrt="numpy.sqrt"):
         return super()._hprint_Pow(expr, rational, sqrt)
